@@ -149,7 +149,7 @@ def struct_unpack(I, st: StructObj, data):
 # builtins
 # ---------------------------------------------------------------------------------------------
 def b_len(I, args, kw):
-    v = args[0]
+    v = I.resolve_seq(args[0])
     if isinstance(v, ByteArr):
         v = v.v
     if hasattr(v, "sym_len"):
@@ -852,6 +852,11 @@ def _list_method(I, xs, name, args, kw):
         xs.append(args[0])
         return None
     if name == "extend":
+        if isinstance(args[0], SymSeq):
+            if xs:
+                raise Unsupported("list.extend(<symbolic sequence>) on a non-empty list")
+            I.sym_ext[id(xs)] = (xs, args[0])
+            return None
         xs.extend(I.iterate(args[0]))
         return None
     if name == "pop":
